@@ -79,7 +79,10 @@ Chains(n) ==
     ELSE LET prev == Chains(n - 1) IN
          prev \cup {Append(r, Hop(r[Len(r)].ask_info, y)) : r \in {q \in prev : Len(q) = n - 1}, y \in Assets}
 GoodRoutes == {r \in Chains(MAXHOPS) : \A i \in DOMAIN r : Linked(r[i].offer_info, r[i].ask_info)}
-BadRoutes == {<<>>, <<Hop(UA, TA), Hop(UB, TB)>>, <<Hop(UA, UB)>>, <<Hop(UA, UA)>>}
+\* empty, two outputs, no such pair, identical assets, and hops that do not chain: two pairs merging into one
+\* output, a chain given in the wrong order
+BadRoutes == {<<>>, <<Hop(UA, TA), Hop(UB, TB)>>, <<Hop(UA, UB)>>, <<Hop(UA, UA)>>,
+              <<Hop(UA, TA), Hop(TB, TA)>>, <<Hop(TA, TB), Hop(UA, TA)>>}
 
 Quote(ops, a) == LET q == QRouterSim(w, ops, a) IN IF q.ok THEN q.amount ELSE 0
 Mins(ops, a) == LET q == Quote(ops, a) IN {None, Some(q), Some(q + 1)} \cup (IF q > 0 THEN {Some(q - 1)} ELSE {})
